@@ -7,6 +7,8 @@ from recipe_grid.units import UNIT_SYSTEM
 
 WORDS = ["spam", "eggs", "flour", "fry", "chop", "mix well", "boil", "sauce", "Tom's", "a&b", "<b>", 'say "hi"', "x>y", "50%", "#1",
          "é", "naïve", "日本", "a b", "{x}", "back\\slash", "it's \"q\"", "  padded", "tail ", "UPPER", "ß", "İ"]
+# text that reads as a character reference (with and without the semicolon): shown as written, never decoded
+WORDS += ["180&deg;C", "salt &amp; pepper", "&lt;b&gt;", "&#65;", "oil&not butter", "AT&amp;T", "&amp;amp;", "&#x27;"]
 UNITS = list(UNIT_SYSTEM.iter_names())
 FREE_UNITS = ["sack", "handful", "<big>", "Kg", "TSP", "Tea Spoon", "x&y", "glug", "Jar", "Big Tin", "ladleS", "\u00c9clat"]
 PREPS = ["", " of", " of the", " OF  the"]
